@@ -503,6 +503,16 @@ pub fn one(prop: &str, seed: u64, idx: u64) -> i32 {
         libc::alarm(25);
     }
     let sc = profiles::generate(prop, seed, idx);
+    if std::env::var("VERIF_VERBOSE").is_ok() {
+        // debugging aid: the base run's call trace and outcome
+        let res = crate::run::run(&sc, &crate::run::RunOpts { trace: true, ..Default::default() });
+        for l in crate::shrink::trace_of(prop, &sc) {
+            println!("{}", l);
+        }
+        for (i, d) in res.dumps.iter().enumerate() {
+            println!("request {} -> {}", i + 1, match &d.result { crate::run::DumpRes::Ok(v) => format!("ok {} bytes", v.len()), crate::run::DumpRes::Err(e) => format!("err {}", e), crate::run::DumpRes::Panic(p) => format!("panic {}", p) });
+        }
+    }
     let ev = oracle::evaluate(prop, &sc);
     for v in &ev.violations {
         println!("violation oracle={} detail={}", v.oracle, v.detail);
